@@ -7,12 +7,17 @@ eigenbasis inside degenerate subspaces; the 4-chains of the two-particle Green's
 Differential runs: the same model and temperature is run through the real library (harness h_ed via tools/edlib.py) with the default
 analysis, with symmetries ignored (one block) and with several custom lists of integrals of motion (N only, S_z only, N and S_z,
 per-site / per-orbital / per-spin charges, shifted and scaled linear forms, N^2, constants, products n_i n_j where they commute with
-H, and lists containing candidates that must be rejected).  Spectrum, <H>, occupancies, double occupancies, <c^+_i c_j>, G_ij(z) for
+H, and lists containing candidates that must be rejected).  Non-linear diagonal candidates come from the systematic family of
+checks/diagfam.py (products of two / three linear forms of both signs such as 4 S^z_A S^z_B, (N_A-N_B) 2S^z, (n_a-n_b)(n_c-n_d), N_up N_down,
+polynomials of N, projectors, ...) and are tried above all on models where they are conserved (nl_models: exchange without hopping,
+diagonal Hamiltonians, decoupled atoms, spin-conserving hopping): whatever subset the library accepts, the observables must not move.  Spectrum, <H>, occupancies, double occupancies, <c^+_i c_j>, G_ij(z) for
 all i, j, susceptibilities and chi at frequency triples aimed at the resonance patterns are compared across the partitions and with
 the full-space oracle (driver_ed).
 Tolerance: 1e-9 * scale; the library drops residues below 1e-8 per part, so the set of dropped terms depends on the partition:
 where that can happen (the residues of G_ij reported by `gfterms` do not add up to delta_ij in some partition; for susceptibility /
-chi: some Boltzmann weight below 1e-6) 1e-7 absolute is allowed instead.
+chi: some Boltzmann weight below 1e-6) 1e-7 absolute is allowed instead.  Susceptibilities against the oracle: additionally the sum
+over all pairs of levels of 1e-8 / |i W - (E_a - E_b)| (SusceptibilityPart leaves out terms with residues up to 1e-8; with a small level
+spacing one such term is worth more than 1e-7).  A partition under which the harness dies in a later query is re-run with dm / gf only.
 """
 import math
 import concurrent.futures as cf
@@ -488,7 +493,10 @@ def run(chk):
     chk.extra["stats"] = stats
     chk.rule = ("models: every family of tools/scen.py (Hubbard atom, two-site incl. spin-flip hopping, Anderson, free degenerate, atomic limit, Kanamori, "
                 "exchange, pairing, spinless) and heterogeneous lattices of the C07 generator with <= 4 modes, beta in {0.5, 1, 2, 4}; each under ignore, "
-                "default and 3-8 custom candidate lists; queries: dm, G_ij at 3 complex z for all i, j (+ term lists), <c^+_i c_j>, 3-8 susceptibilities at "
+                "default and 3-8 custom candidate lists (one of them around a member of the non-linear family of checks/diagfam.py); models in which "
+                "non-linear diagonal operators are conserved (3 deterministic + 6-33 random: exchange without hopping, diagonal, decoupled, "
+                "spin-conserving hopping) under ignore, default and 4-6 lists around members of that family, half of them with increments that "
+                "agree at the vacuum and at the filled state; queries: dm, G_ij at 3 complex z for all i, j (+ term lists), <c^+_i c_j>, 3-8 susceptibilities at "
                 "W_0, W_1, W_-2, 2-6 chi at resonance-pattern triples. A case = (model, partition); distinct = distinct text; non-trivial = more than one "
                 "block or the one-block reference. Signature = family | partition | accepted count -> block count.")
 
